@@ -75,6 +75,10 @@ struct Item {
     macro_rules: Option<String>,
     #[serde(default)]
     macro_arg: Option<String>,
+    /// E10b: concretise an opaque `impl Trait` return type to the named struct type; only allowed when the
+    /// function's tail expression is a struct literal (or `Self::new`-style path call is NOT accepted) of that type
+    #[serde(default)]
+    ret_type: Option<String>,
     /// exact-text replacements (escape hatch, reported as rule M)
     #[serde(default)]
     manual: Vec<(String, String, String)>,
@@ -923,6 +927,19 @@ fn extract_fn(file: &syn::File, src: &Src, it: &Item) -> ItemOut {
         let mut errs = vec![];
         let mut t = norm(&apply_edits(src, ts, te, sub.edits.clone(), &mut errs));
         for e in &sub.edits { out.edits.push(EditOut { rule: e.rule.clone(), line: src.line_of(e.start), from: src.text[e.start..e.end].to_string(), to: e.text.clone() }); }
+        if let Some(rt) = &it.ret_type {
+            let want = rt.split('<').next().unwrap_or("").trim().to_string();
+            let ok = t.starts_with("impl ") && match block.stmts.last() {
+                Some(syn::Stmt::Expr(syn::Expr::Struct(es), None)) => last_seg(&es.path) == want,
+                _ => false,
+            };
+            if ok {
+                out.edits.push(EditOut { rule: "E10b opaque return type concretised to the struct type of the tail literal".into(), line: src.line_of(ts), from: t.clone(), to: rt.clone() });
+                t = rt.clone();
+            } else {
+                out.errors.push(format!("E10b: side condition failed: return type is not `impl ..` or the tail expression is not a `{want} {{ .. }}` literal"));
+            }
+        }
         if t.starts_with("impl ") && !t.contains("use<") { t.push_str(" + use<'_>"); }
         let rn = it.ret_name.clone().unwrap_or_else(|| "r".to_string());
         if t == "!" { sigtxt.push_str(" -> !"); } else { sigtxt.push_str(&format!(" -> ({rn}: {t})")); }
